@@ -26,7 +26,7 @@ ASSUMPTIONS = [
     "Entries on ignored chromosomes are dropped by Genome.get_intervals / get_locations; the model does the same.",
 ]
 REQUIRED_CLASSES = ["two-or-more-chromosomes", "ends-at-chromosome-end", "starts-at-0-of-next", "empty-chromosome", "prefix-names", "underscore-name",
-                    "keep_all", "minus-strand", "boundary-pair", "covered-run-through-a-whole-chromosome"]
+                    "keep_all", "minus-strand", "boundary-pair", "covered-run-through-a-whole-chromosome", "sort-names-of-unsorted-input"]
 BOUNDS = {"quick": "exhaustive GlobalOffset bijection for every generated genome; 2000 sampled genomes with sizes up to 12",
           "thorough": "48000 sampled genomes with sizes up to 40"}
 BUDGET_S = {"quick": 200, "thorough": 1500}
@@ -40,7 +40,9 @@ def _where(e):
 
 
 def included(case):
-    return [(n, s) for n, s in case["genome"] if case["filter"] == "keep_all" or "_" not in n]
+    inc = [(n, s) for n, s in case["genome"] if case["filter"] == "keep_all" or "_" not in n]
+    # sort_names=True: the genome's order is the lexicographic order of the names, each name keeping its own size
+    return sorted(inc) if case.get("sort_names") else inc
 
 
 def classify(case):
@@ -54,6 +56,8 @@ def classify(case):
         cl.append("prefix-names")
     if any("_" in n for n, _ in case["genome"]):
         cl.append("underscore-name")
+    if case.get("sort_names") and [n for n, _ in case["genome"]] != sorted(n for n, _ in case["genome"]):
+        cl.append("sort-names-of-unsorted-input")
     per = {n: [] for n in names}
     for ci, a, b, s in case["ivs"]:
         n = case["genome"][ci][0]
@@ -96,7 +100,8 @@ def check(case, stats=None):
     sizes = dict(inc)
     if not names:
         return []
-    genome = bnp.Genome.from_dict(chrom_sizes, filter_function=filt)
+    sort_kw = {"sort_names": True} if case.get("sort_names") else {}
+    genome = bnp.Genome.from_dict(chrom_sizes, filter_function=filt, **sort_kw)
 
     ivs_all = [(case["genome"][ci][0], a, b, s) for ci, a, b, s in case["ivs"]]
     ivs = [x for x in ivs_all if x[0] in sizes]
@@ -286,7 +291,7 @@ def check(case, stats=None):
                 with open(path, "w") as f:
                     for n, _ in case["genome"]:
                         f.write(">" + n + "\n" + "".join(seqs[n][i:i + wrap] + "\n" for i in range(0, len(seqs[n]), wrap)))
-                g2 = guard("Genome.from_file", lambda: bnp.Genome.from_file(path, filter_function=filt))
+                g2 = guard("Genome.from_file", lambda: bnp.Genome.from_file(path, filter_function=filt, **sort_kw))
                 if g2 is not None:
                     gseq = guard("read_sequence", lambda: g2.read_sequence())
                     gi2 = guard("get_intervals", lambda: g2.get_intervals(mk(ivs_all, True), stranded=True))
@@ -421,6 +426,8 @@ def c10_case(draw, Smax):
             "widen": [[draw(st.integers(0, 3)), draw(st.integers(0, 3))] for _ in range(3)]}
     if draw(st.integers(0, 2)) == 0:
         case["fasta"] = draw(st.integers(1, 9))
+    if draw(st.integers(0, 4)) == 0:
+        case["sort_names"] = True
     return case
 
 
